@@ -55,6 +55,12 @@ def build_data(seed):
     n = d.copy()
     n["observed"] = n["observed"] - n["observed"].mean() * 1.02
     add("Daily", "neggas", F.daily_baseline(n, electric=False), ("Baseline", "Daily"), "US/Pacific")
+    # only the missing-month defect (4 April days without temperature: April 86.7% < 90%, the year stays > 90%);
+    # its disqualification is created with an EMPTY data dict
+    mm = d.copy()
+    apr = [i for i, ts in enumerate(mm.index) if ts.month == 4][5:9]
+    mm.loc[mm.index[apr], "temperature"] = np.nan
+    add("Daily", "missmonth", F.daily_baseline(mm), ("Baseline", "Daily"), "US/Pacific")
     e = F.daily_frame(rng, tz="US/Eastern")
     add("Daily", "clean_tzB", F.daily_baseline(e), ("Baseline", "Daily"), "US/Eastern")
     r = F.daily_frame(rng, tz="US/Pacific", start="2023-01-01", ndays=120)
@@ -70,6 +76,10 @@ def build_data(seed):
     m, t = F.billing_series(rng, tz="US/Pacific")
     add("Billing", "clean", F.billing_baseline(m, t), ("Baseline", "Billing"), "US/Pacific")
     add("Billing", "short", F.billing_baseline(m.iloc[:7], t), ("Baseline", "Billing"), "US/Pacific")
+    tmm = t.copy()
+    aprh = [i for i, ts in enumerate(tmm.index) if ts.month == 4 and 6 <= ts.day <= 9]
+    tmm.iloc[aprh] = np.nan
+    add("Billing", "missmonth", F.billing_baseline(m, tmm), ("Baseline", "Billing"), "US/Pacific")
     m2, t2 = F.billing_series(rng, tz="US/Eastern")
     add("Billing", "clean_tzB", F.billing_baseline(m2, t2), ("Baseline", "Billing"), "US/Eastern")
     mn = m - m.mean() * 1.02
@@ -223,6 +233,10 @@ def gen_history(rng, fam, k):
                ("predict", "rep", False), ("predict", "clean", True), ("fit", "neggas" if fam != "Hourly" else "short", True),
                ("predict", "rep", False)]
         return "lowthr", ops
+    if k == 3 and fam != "Hourly":
+        ops = [("fit", "missmonth", False), ("fit", "missmonth", True), ("predict", "rep", False), ("reload",),
+               ("predict", "rep", False), ("predict", "rep", True), ("reload",), ("predict", "rep", False)]
+        return "default", ops
     if k == 3 and fam == "Hourly":
         ops = [("fit", "exporter_poor", False), ("predict", "rep", False), ("reload",), ("predict", "rep", False),
                ("predict", "rep", True)]
